@@ -85,6 +85,20 @@ def SplitView.getT (s : SplitView) (v : View) (index : Nat) : Option (Option Vie
 
 /-! ## `encode_parallel` (encode/mod.rs:162–230) -/
 
+/-- the job of one fragment (mod.rs:193–219): `(bytes of the fragment's buffer, fragment height)` -/
+def fragmentT (bodyT : View → Option (List Nat)) (px : PixelInfo) (s : SplitView) (v : View) (i : Nat) :
+    Option (Nat × Nat) := do
+  let f ← SplitView.getT s v i                               -- :194 `.expect("invalid fragment index")`
+  match f with
+  | none => none
+  | some frag => do
+    -- :200–204 `surface_bytes(..).unwrap_or(u64::MAX).try_into().expect("too many bytes")` (`usize` = `u64`)
+    let bytes := (px.surfaceBytes frag.w frag.h).getD 18446744073709551615
+    allocT bytes 1                                           -- :205 `Vec::with_capacity(bytes)`
+    let ws ← bodyT frag                                      -- :210
+    dbgP (ws.sum = bytes)                                    -- :217 `debug_assert_eq!(buffer.len(), bytes)`
+    pure (bytes, frag.h)
+
 /-- `bodyT` = the sequential encoder of the format on a view (`encode(&mut buffer, fragment, format, None, ..)` with
 `parallel = false`), `px` the format's `PixelInfo`.  Returns the sizes of the `write_all` calls on the real writer. -/
 def encodeParallelT (bodyT : View → Option (List Nat)) (px : PixelInfo) (v : View) (sup : Option Support)
@@ -93,19 +107,7 @@ def encodeParallelT (bodyT : View → Option (List Nat)) (px : PixelInfo) (v : V
   if s.len = 1 then bodyT v                                  -- :180 `split.single()`
   else do
   let total ← addU v.h 1                                     -- :188 `image.height() as u64 + 1`
-  let frags ← mapT (fun i => do
-    let f ← SplitView.getT s v i                             -- :194 `.expect("invalid fragment index")`
-    match f with
-    | none => none
-    | some frag => do
-      -- :200–204 `surface_bytes(..).unwrap_or(u64::MAX).try_into().expect("too many bytes")` (`usize` = `u64`)
-      let bytes := match px.surfaceBytes frag.w frag.h with
-        | some b => b
-        | none => 18446744073709551615
-      allocT bytes 1                                         -- :205 `Vec::with_capacity(bytes)`
-      let ws ← bodyT frag                                    -- :210
-      dbgP (ws.sum = bytes)                                  -- :217 `debug_assert_eq!(buffer.len(), bytes)`
-      pure (bytes, frag.h)) (List.range s.len)
+  let frags ← mapT (fragmentT bodyT px s v) (List.range s.len)
   -- :215 `parallel_progress.submit(fragment.height())`: `guard.0 += progress`, then
   -- `project(guard.0 as f32 / total as f32)` with its `debug_assert!` (progress.rs:47, :311–312); whatever the
   -- completion order, the running sum is at most the sum over all fragments
